@@ -71,4 +71,21 @@ PROPS = {
                      "the specification Siot/Spec/ModbusSpec.lean is my transcription of MODBUS Application Protocol V1.1b3 section 6; for multiple writes it reuses the model's write loop for the success state"],
         "assumptions": [],
     },
+    "C19": {
+        "required_theorems": ["c19_read_regs_agrees", "c19_read_regs_error", "c19_read_bits_agrees", "c19_write_reg_then_read",
+                              "c19_rtu_roundtrip", "c19_rtu_rejects", "c19_tcp_roundtrip", "c19_tcp_rejects",
+                              "c19_uint32_roundtrip", "c19_regs_uint32_roundtrip", "c19_signed_roundtrip", "c19_signed_roundtrip'",
+                              "gen_framing_pinned"],
+        "n": {"quick": 10000, "thorough": 100000},
+        "thorough_seeds": 3,
+        "rule": "real modbus.Client <-> modbus.Server over net.Pipe, RTU and TCP framing, fresh link per case: coil/discrete reads (counts 1,2,7,8,9,12,15,16,17,24,100,2000,2001,0), "
+                "register reads (counts 1..126 incl. 97-100,124-126), single coil/register writes with read-back of the whole register file, on the C18 register maps; "
+                "raw frames (valid, bit-flipped, truncated, random) into both Decode functions; conversions uint32/int32/float32 both word orders and int16 on boundary patterns; "
+                "distinct = distinct case line; every case runs the real client, server or codec",
+        "trusted": ["net.Pipe as lossless in-memory duplex; math.Float32bits/frombits are bijections on non-NaN patterns"],
+        "modelled": ["modbus/client.go, rtu.go, crc.go, tcp.go, RespReadBitsCount/RespReadRegs, data.go modelled by hand (Siot/Model/ModbusE2E.lean) on top of the C18 server model",
+                     "timing (respreader, socket deadlines) is not modelled: a request the server does not answer is the outcome `timeout`",
+                     "unit id filtering and the ASCII transport are not modelled"],
+        "assumptions": ["register values are 16-bit (Regs16)", "frames are delivered whole (one Read = one frame) as modbus.NewClient requires"],
+    },
 }
